@@ -96,3 +96,447 @@ Definition print_constants {V : Type} (its : list (str * str * V)) : list token 
   end.
 
 Definition item_value {V : Type} (it : str * str * V) : str * V := (fst (fst it), snd it).
+
+(* ====================================================================================================
+   Surface syntax for the productions covered by Front/TypeGrammarProofs (C07).
+   A surface term carries the spellings the abstract syntax does not have (digit strings of numerals, the case
+   of TRUE / FALSE, the columns of the tokens of a character string literal); `denote_*` maps it to what the parser
+   must build, `print_*` to the token list, `*_wf` says the spellings are consistent and that the term is not
+   in one of the classes the parser is known not to preserve (REFUTED witnesses in Props/C07.v).
+   ==================================================================================================== *)
+
+Definition marker_toks : list token := [P C_DOT; P C_DOT; P C_DOT].
+
+(* position of the extension marker relative to the items still to print: Some 0 = after the next item *)
+Definition ext_pred (e : option nat) : option nat := match e with Some (S k) => Some k | _ => None end.
+Definition ext_here (e : option nat) : list token := match e with Some O => P C_COMMA :: marker_toks | _ => [] end.
+
+(* the marker, when present, follows an existing item (classes marker_before_first_component,
+   second_extension_marker_overwrites_first: exactly one marker is printed, after item k+1) *)
+Definition ext_pos_ok (ext : option N) (n : nat) : Prop :=
+  match ext with Some k => (N.to_nat k < n)%nat | None => True end.
+
+(* ---------- ENUMERATED { a , b ( 2 ) , ... , c } : an item is (name, optional (numeral text, number)) ---------- *)
+Definition senum_item : Type := (str * option (str * N))%type.
+
+Definition print_enum_item (it : senum_item) : list token :=
+  match snd it with
+  | None => [T (fst it)]
+  | Some (num, _) => [T (fst it); P C_LPAREN; T num; P C_RPAREN]
+  end.
+
+Definition enum_item_value (it : senum_item) : str * option N :=
+  (fst it, match snd it with None => None | Some (_, n) => Some n end).
+
+Definition enum_item_ok (it : senum_item) : Prop :=
+  match snd it with None => True | Some (num, n) => parse_u64 num = Some n end.
+
+Fixpoint print_enum_items (its : list senum_item) (ext : option nat) : list token :=
+  match its with
+  | [] => []
+  | it :: r =>
+      print_enum_item it ++ ext_here ext ++
+      match r with [] => [P C_RBRACE] | _ :: _ => P C_COMMA :: print_enum_items r (ext_pred ext) end
+  end.
+
+Definition print_enumerated (its : list senum_item) (ext : option N) : list token :=
+  P C_LBRACE :: print_enum_items its (option_map N.to_nat ext).
+
+Definition enum_wf (its : list senum_item) (ext : option N) : Prop :=
+  its <> [] /\ ext_pos_ok ext (length its) /\ Forall enum_item_ok its.
+
+(* ---------- literals ----------
+   Character string literals are rebuilt by the parser from the token COLUMNS, so the printer places the tokens:
+   opening quote at (line, col), the first text token right after it, then pieces (a text or a separator character
+   other than the quote) each preceded by `gap` blanks, the closing quote right after the last piece. *)
+Inductive spiece : Type :=
+| PcText (gap : N) (s : str)
+| PcSep (gap : N) (c : N).
+
+Definition piece_tok (l col : N) (p : spiece) : token :=
+  match p with PcText g s => Text l (col + g) s | PcSep g c => Separator l (col + g) c end.
+Definition piece_end (col : N) (p : spiece) : N :=
+  match p with PcText g s => col + g + N.of_nat (length s) | PcSep g _ => col + g + 1 end.
+Definition piece_text (p : spiece) : str :=
+  match p with PcText g s => repeat 32 (N.to_nat g) ++ s | PcSep g c => repeat 32 (N.to_nat g) ++ [c] end.
+Definition piece_ok (delim : N) (p : spiece) : Prop :=
+  match p with PcText _ _ => True | PcSep _ c => c <> delim end.
+
+Fixpoint print_pieces (delim l col : N) (ps : list spiece) : list token :=
+  match ps with
+  | [] => [Separator l col delim]
+  | p :: r => piece_tok l col p :: print_pieces delim l (piece_end col p) r
+  end.
+
+Inductive slit : Type :=
+| SLBool (spelling : str) (b : bool)                    (* TRUE, true, True, ... *)
+| SLInt (spelling : str) (z : Z)                        (* digits | '-' digits *)
+| SLString (line col : N) (first : str) (pieces : list spiece)
+| SLHex (line col : N) (hex : str) (suffix : str)       (* 'hex'H *)
+| SLBits (line col : N) (bits : str) (suffix : str).    (* 'bits'B *)
+
+Definition print_quoted (delim l col : N) (first : str) (ps : list spiece) : list token :=
+  Separator l col delim :: Text l (col + 1) first :: print_pieces delim l (col + 1 + N.of_nat (length first)) ps.
+
+Definition print_slit (v : slit) : list token :=
+  match v with
+  | SLBool s _ => [T s]
+  | SLInt s _ => [T s]
+  | SLString l col first ps => print_quoted C_QUOTE l col first ps
+  | SLHex l col hex suffix => print_quoted C_APOS l col hex [] ++ [Text l (col + 2 + N.of_nat (length hex)) suffix]
+  | SLBits l col bits suffix => print_quoted C_APOS l col bits [] ++ [Text l (col + 2 + N.of_nat (length bits)) suffix]
+  end.
+
+Definition denote_slit (v : slit) : literal :=
+  match v with
+  | SLBool _ b => LBool b
+  | SLInt _ z => LInteger z
+  | SLString _ _ first ps => LString (first ++ concat (map piece_text ps))
+  | SLHex _ _ hex _ => LOctets (hex_pairs hex)
+  | SLBits _ _ bits _ => LOctets (chunks8 (S (length bits)) bits)
+  end.
+
+(* hstrings of odd length and bstrings whose length is not a multiple of 8 are excluded (the length is lost: class
+   bit_literal_right_aligned_length_lost), as are the empty ''H / ''B / "" and strings that begin with a blank or
+   a separator character (classes empty_string_literal_swallows_tokens, string_literal_leading_char_lost) *)
+Definition slit_wf (v : slit) : Prop :=
+  match v with
+  | SLBool s b => eq_ignore_case s (if b then KW "true" else KW "false") = true
+  | SLInt s z => is_int_text s = true /\ parse_i64 s = Some z
+  | SLString _ _ first ps => Forall (piece_ok C_QUOTE) ps
+  | SLHex _ _ hex suffix =>
+      forallb is_hexdigit hex = true /\ Nat.even (length hex) = true /\ eq_ignore_case suffix (KW "H") = true
+  | SLBits _ _ bits suffix =>
+      forallb (fun c => (c =? 48) || (c =? 49)) bits = true /\ Nat.modulo (length bits) 8 = O /\
+      eq_ignore_case suffix (KW "B") = true
+  end.
+
+(* a value reference in the place of a literal: any word that is not itself a literal *)
+Definition value_ref_ok (s : str) : Prop :=
+  eq_ignore_case s (KW "true") = false /\ eq_ignore_case s (KW "false") = false /\ is_int_text s = false.
+
+(* ---------- OBJECT IDENTIFIER values: a component with the spelling of its number ---------- *)
+Definition soidc : Type := (oidc * str)%type.
+
+Definition print_oidc (c : soidc) : list token :=
+  match fst c with
+  | NameForm s => [T s]
+  | NumberForm _ => [T (snd c)]
+  | NameAndNumberForm s _ => [T s; P C_LPAREN; T (snd c); P C_RPAREN]
+  end.
+
+(* what read_oid sees: the "{" is consumed by maybe_read_oid *)
+Definition print_oid_body (cs : list soidc) : list token := flat_map print_oidc cs ++ [P C_RBRACE].
+
+Definition print_opt_oid (o : option (list soidc)) : list token :=
+  match o with None => [] | Some cs => P C_LBRACE :: print_oid_body cs end.
+
+Definition denote_opt_oid (o : option (list soidc)) : option (list oidc) := option_map (map fst) o.
+
+(* a name is not all digits; a NumberForm is all digits (so "+7" is not a NumberForm) *)
+Definition oidc_ok (c : soidc) : Prop :=
+  match fst c with
+  | NameForm s => forallb is_numeric s = false
+  | NumberForm n => forallb is_numeric (snd c) = true /\ parse_u64 (snd c) = Some n
+  | NameAndNumberForm s n => forallb is_numeric s = false /\ parse_u64 (snd c) = Some n
+  end.
+
+Definition opt_oid_ok (o : option (list soidc)) : Prop :=
+  match o with None => True | Some cs => Forall oidc_ok cs end.
+
+(* ---------- IMPORTS  a , b FROM X { oid } c FROM Y ;  (the keyword IMPORTS is consumed by module_loop) ---------- *)
+Record simport : Type := { si_what : list str; si_from : str; si_oid : option (list soidc) }.
+
+Fixpoint print_symbols (ss : list str) : list token :=
+  match ss with
+  | [] => []
+  | [s] => [T s]
+  | s :: r => T s :: P C_COMMA :: print_symbols r
+  end.
+
+Definition print_import (i : simport) : list token :=
+  print_symbols (si_what i) ++ T (KW "FROM") :: T (si_from i) :: print_opt_oid (si_oid i).
+
+Definition print_imports (is : list simport) : list token := flat_map print_import is ++ [P C_SEMI].
+
+Definition denote_import (i : simport) : import :=
+  {| i_what := si_what i; i_from := si_from i; i_from_oid := denote_opt_oid (si_oid i) |}.
+
+Definition import_ok (i : simport) : Prop := si_what i <> [] /\ opt_oid_ok (si_oid i).
+
+(* ---------- the type grammar ---------- *)
+
+(* no SIZE | SIZE ( .. ) | ( SIZE ( .. ) ) *)
+Inductive ssize : Type :=
+| SSNone
+| SSBare (s : size (lit_or_ref N)) (sa sb : str)
+| SSParen (s : size (lit_or_ref N)) (sa sb : str).
+
+Definition print_ssize (z : ssize) : list token :=
+  match z with
+  | SSNone => []
+  | SSBare s sa sb => print_size s sa sb
+  | SSParen s sa sb => P C_LPAREN :: print_size s sa sb ++ [P C_RPAREN]
+  end.
+
+Definition denote_ssize (z : ssize) : size (lit_or_ref N) :=
+  match z with SSNone => SAny | SSBare s _ _ | SSParen s _ _ => s end.
+
+Definition ssize_wf (z : ssize) : Prop :=
+  match z with SSNone => True | SSBare s sa sb | SSParen s sa sb => size_wf s sa sb end.
+
+(* nothing | OPTIONAL | DEFAULT literal | DEFAULT valuereference *)
+Inductive sdefault : Type := SDNone | SDOptional | SDLit (l : slit) | SDRef (s : str).
+
+Definition print_sdefault (d : sdefault) : list token :=
+  match d with
+  | SDNone => []
+  | SDOptional => [T (KW "OPTIONAL")]
+  | SDLit l => T (KW "DEFAULT") :: print_slit l
+  | SDRef s => [T (KW "DEFAULT"); T s]
+  end.
+
+Definition sdefault_wf (d : sdefault) : Prop :=
+  match d with SDLit l => slit_wf l | SDRef s => value_ref_ok s | _ => True end.
+
+(* an optional tag with the spelling of its number *)
+Definition stag : Type := (option atag * str)%type.
+Definition stag_ok (t : stag) : Prop := forall tg, fst t = Some tg -> parse_u64 (snd t) = Some (tag_number tg).
+
+Definition const_ok {V : Type} (parser : token -> pres V) (it : str * str * V) : Prop :=
+  parser (T (snd (fst it))) = POk (snd it).
+
+Inductive sty : Type :=
+| SBoolean
+| SNull
+| SInteger (consts : list (str * str * Z)) (range : option (arange (lit_or_ref Z) * str * str))
+| SString (cs : charset) (sz : ssize)
+| SOctetString (sz : ssize)
+| SBitString (consts : list (str * str * N)) (sz : ssize)
+| SEnumerated (items : list senum_item) (ext : option N)
+| SSequence (fs : sfields) (ext : option N)
+| SSet (fs : sfields) (ext : option N)
+| SSequenceOf (sz : ssize) (t : sty)
+| SSetOf (sz : ssize) (t : sty)
+| SChoice (vs : svariants) (ext : option N)
+| SRef (name : str)
+with sfields : Type :=
+| SFNil
+| SFCons (name : str) (tag : stag) (t : sty) (d : sdefault) (r : sfields)
+with svariants : Type :=
+| SVNil
+| SVCons (name : str) (tag : stag) (t : sty) (r : svariants).
+
+Definition charset_word (c : charset) : str :=
+  match c with
+  | Utf8 => KW "UTF8String" | Numeric => KW "NumericString" | Printable => KW "PrintableString"
+  | Ia5 => KW "IA5String" | Visible => KW "VisibleString"
+  end.
+
+(* the type word read_role / next_with_opt_tag hands to read_role_given_text *)
+Definition sty_word (s : sty) : str :=
+  match s with
+  | SBoolean => KW "BOOLEAN"
+  | SNull => KW "NULL"
+  | SInteger _ _ => KW "INTEGER"
+  | SString cs _ => charset_word cs
+  | SOctetString _ => KW "OCTET"
+  | SBitString _ _ => KW "BIT"
+  | SEnumerated _ _ => KW "ENUMERATED"
+  | SSequence _ _ | SSequenceOf _ _ => KW "SEQUENCE"
+  | SSet _ _ | SSetOf _ _ => KW "SET"
+  | SChoice _ _ => KW "CHOICE"
+  | SRef name => name
+  end.
+
+Definition print_opt_range (rg : option (arange (lit_or_ref Z) * str * str)) : list token :=
+  match rg with Some (r, sa, sb) => print_range r sa sb | None => [] end.
+
+(* the tokens after the type word *)
+Fixpoint sty_args (s : sty) : list token :=
+  match s with
+  | SBoolean | SNull | SRef _ => []
+  | SInteger cs rg => print_constants cs ++ print_opt_range rg
+  | SString _ sz => print_ssize sz
+  | SOctetString sz => T (KW "STRING") :: print_ssize sz
+  | SBitString cs sz => T (KW "STRING") :: print_constants cs ++ print_ssize sz
+  | SEnumerated its ext => print_enumerated its ext
+  | SSequence fs ext | SSet fs ext => P C_LBRACE :: print_fields fs (option_map N.to_nat ext)
+  | SSequenceOf sz t | SSetOf sz t => print_ssize sz ++ T (KW "OF") :: T (sty_word t) :: sty_args t
+  | SChoice vs ext => P C_LBRACE :: print_variants vs (option_map N.to_nat ext)
+  end
+(* components, each followed by its "," or the closing "}"; SFNil is the empty list "{ }" *)
+with print_fields (fs : sfields) (ext : option nat) : list token :=
+  match fs with
+  | SFNil => [P C_RBRACE]
+  | SFCons name tag t d r =>
+      T name :: print_opt_tag (fst tag) (snd tag) ++ T (sty_word t) :: sty_args t ++ print_sdefault d ++ ext_here ext ++
+      match r with SFNil => [P C_RBRACE] | SFCons _ _ _ _ _ => P C_COMMA :: print_fields r (ext_pred ext) end
+  end
+with print_variants (vs : svariants) (ext : option nat) : list token :=
+  match vs with
+  | SVNil => []
+  | SVCons name tag t r =>
+      T name :: print_opt_tag (fst tag) (snd tag) ++ T (sty_word t) :: sty_args t ++ ext_here ext ++
+      match r with SVNil => [P C_RBRACE] | SVCons _ _ _ _ => P C_COMMA :: print_variants r (ext_pred ext) end
+  end.
+
+Definition print_sty (s : sty) : list token := T (sty_word s) :: sty_args s.
+
+Definition denote_range (rg : option (arange (lit_or_ref Z) * str * str)) : arange (lit_or_ref Z) :=
+  match rg with Some (r, _, _) => r | None => (None, None, false) end.
+
+Definition denote_sdefault (d : sdefault) : option (lit_or_ref literal) :=
+  match d with SDLit l => Some (Lit (denote_slit l)) | SDRef s => Some (Ref s) | _ => None end.
+
+(* the parser never builds TDefault: the default goes to the third component of the field *)
+Fixpoint denote_sty (s : sty) : uty :=
+  match s with
+  | SBoolean => TBoolean
+  | SNull => TNull
+  | SInteger cs rg => TInteger (denote_range rg) (map item_value cs)
+  | SString c sz => TString (denote_ssize sz) c
+  | SOctetString sz => TOctetString (denote_ssize sz)
+  | SBitString cs sz => TBitString (denote_ssize sz) (map item_value cs)
+  | SEnumerated its ext => TEnumerated (map enum_item_value its) ext
+  | SSequence fs ext => TSequence (denote_fields fs) ext
+  | SSet fs ext => TSet (denote_fields fs) ext
+  | SSequenceOf sz t => TSequenceOf (denote_sty t) (denote_ssize sz)
+  | SSetOf sz t => TSetOf (denote_sty t) (denote_ssize sz)
+  | SChoice vs ext => TChoice (denote_variants vs) ext
+  | SRef name => TRef name None
+  end
+with denote_fields (fs : sfields) : list ufield :=
+  match fs with
+  | SFNil => []
+  | SFCons name tag t d r =>
+      (name, (fst tag, match d with SDOptional => TOptional (denote_sty t) | _ => denote_sty t end, denote_sdefault d))
+      :: denote_fields r
+  end
+with denote_variants (vs : svariants) : list (str * option atag * uty) :=
+  match vs with
+  | SVNil => []
+  | SVCons name tag t r => (name, fst tag, denote_sty t) :: denote_variants r
+  end.
+
+Fixpoint sfields_length (fs : sfields) : nat := match fs with SFNil => O | SFCons _ _ _ _ r => S (sfields_length r) end.
+Fixpoint svariants_length (vs : svariants) : nat := match vs with SVNil => O | SVCons _ _ _ r => S (svariants_length r) end.
+
+(* the words read_role_given_text takes for builtin types (after to_ascii_lower): a type reference spelled like
+   one of them, in any case, is read as the builtin (class type_reference_read_as_keyword) *)
+Definition is_builtin_word (lower : str) : bool :=
+  str_eqb lower (KW "integer") || str_eqb lower (KW "boolean") || str_eqb lower (KW "null")
+  || str_eqb lower (KW "utf8string") || str_eqb lower (KW "ia5string") || str_eqb lower (KW "numericstring")
+  || str_eqb lower (KW "printablestring") || str_eqb lower (KW "visiblestring")
+  || str_eqb lower (KW "octet") || str_eqb lower (KW "bit") || str_eqb lower (KW "enumerated")
+  || str_eqb lower (KW "choice") || str_eqb lower (KW "sequence") || str_eqb lower (KW "set").
+
+Fixpoint wf_sty (s : sty) : Prop :=
+  match s with
+  | SBoolean | SNull => True
+  | SInteger cs rg =>
+      Forall (const_ok constant_i64_parser) cs /\
+      match rg with Some (r, sa, sb) => range_wf r sa sb | None => True end
+  | SString _ sz | SOctetString sz => ssize_wf sz
+  | SBitString cs sz => Forall (const_ok constant_u64_parser) cs /\ ssize_wf sz
+  | SEnumerated its ext => enum_wf its ext
+  | SSequence fs ext | SSet fs ext => wf_sfields fs /\ ext_pos_ok ext (sfields_length fs)
+  | SSequenceOf sz t | SSetOf sz t => ssize_wf sz /\ wf_sty t
+  | SChoice vs ext => vs <> SVNil /\ wf_svariants vs /\ ext_pos_ok ext (svariants_length vs)
+  | SRef name => is_builtin_word (map to_ascii_lower name) = false
+  end
+with wf_sfields (fs : sfields) : Prop :=
+  match fs with
+  | SFNil => True
+  | SFCons _ tag t d r => stag_ok tag /\ wf_sty t /\ sdefault_wf d /\ wf_sfields r
+  end
+with wf_svariants (vs : svariants) : Prop :=
+  match vs with
+  | SVNil => True
+  | SVCons _ tag t r => stag_ok tag /\ wf_sty t /\ wf_svariants r
+  end.
+
+(* FOLLOW sets: what the parser would take for a continuation of the type.
+   (forbids "{", forbids "(", forbids the word SIZE in any case) *)
+Fixpoint follow_req (s : sty) : bool * bool * bool :=
+  match s with
+  | SInteger [] None => (true, true, false)
+  | SInteger (_ :: _) None => (false, true, false)
+  | SString _ SSNone | SOctetString SSNone => (false, true, true)
+  | SBitString [] SSNone => (true, true, true)
+  | SBitString (_ :: _) SSNone => (false, true, true)
+  | SRef _ => (false, true, false)
+  | SSequenceOf _ t | SSetOf _ t => follow_req t
+  | _ => (false, false, false)
+  end.
+
+Definition follow_ok (s : sty) (rest : list token) : Prop :=
+  let '(b, p, z) := follow_req s in
+  (b = true -> peek_is_sep C_LBRACE rest = false) /\
+  (p = true -> peek_is_sep C_LPAREN rest = false) /\
+  (z = true -> peek_is_text_ic (KW "SIZE") rest = false).
+
+(* ---------- modules ---------- *)
+Record smodule : Type := {
+  sm_name : str;
+  sm_oid : option (list soidc);
+  sm_imports : list simport;
+  sm_defs : list (str * stag * sty);          (* Name ::= [tag] Type *)
+  sm_vals : list (str * sty * slit)           (* name Type ::= literal *)
+}.
+
+Definition assign_toks : list token := [P C_COLON; P C_COLON; P C_EQ].
+
+Definition print_def (d : str * stag * sty) : list token :=
+  let '(name, tag, t) := d in
+  T name :: assign_toks ++ print_opt_tag (fst tag) (snd tag) ++ print_sty t.
+
+Definition print_val (v : str * sty * slit) : list token :=
+  let '(name, t, l) := v in T name :: print_sty t ++ assign_toks ++ print_slit l.
+
+Definition print_imports_section (is : list simport) : list token :=
+  match is with [] => [] | _ :: _ => T (KW "IMPORTS") :: print_imports is end.
+
+Definition module_header : list token :=
+  [T (KW "DEFINITIONS"); T (KW "AUTOMATIC"); T (KW "TAGS"); P C_COLON; P C_COLON; P C_EQ; T (KW "BEGIN")].
+
+(* the canonical projection: all type assignments, then all value assignments (the model keeps two lists) *)
+Definition print_module (m : smodule) : list token :=
+  T (sm_name m) :: print_opt_oid (sm_oid m) ++ module_header ++ print_imports_section (sm_imports m) ++
+  flat_map print_def (sm_defs m) ++ flat_map print_val (sm_vals m) ++ [T (KW "END")].
+
+Definition denote_def (d : str * stag * sty) : str * uasn :=
+  let '(name, tag, t) := d in (name, (fst tag, denote_sty t, None)).
+
+Definition denote_val (v : str * sty * slit) : str * uasn * literal :=
+  let '(name, t, l) := v in (name, (None, denote_sty t, None), denote_slit l).
+
+Definition denote_module (m : smodule) : umodel :=
+  {| m_name := sm_name m; m_oid := denote_opt_oid (sm_oid m); m_imports := map denote_import (sm_imports m);
+     m_definitions := map denote_def (sm_defs m); m_value_references := map denote_val (sm_vals m) |}.
+
+(* names of assignments: not END / IMPORTS in any case (class assignment_named_end_truncates_module) *)
+Definition assign_name_ok (name : str) : Prop :=
+  eq_ignore_case name (KW "END") = false /\ eq_ignore_case name (KW "IMPORTS") = false.
+
+(* each type assignment, with the follow-set condition against the tokens that come after it
+   (class assignment_named_size_after_string_type) *)
+Fixpoint defs_wf (ds : list (str * stag * sty)) (after : list token) : Prop :=
+  match ds with
+  | [] => True
+  | d :: r =>
+      let '(name, tag, t) := d in
+      assign_name_ok name /\ stag_ok tag /\ wf_sty t /\ follow_ok t (flat_map print_def r ++ after) /\ defs_wf r after
+  end.
+
+Definition val_wf (v : str * sty * slit) : Prop :=
+  let '(name, t, l) := v in assign_name_ok name /\ wf_sty t /\ slit_wf l.
+
+(* module and import-from names are kept as written only when make_name_nice leaves them alone (class
+   module_name_suffix_stripped) *)
+Definition wf_module (m : smodule) : Prop :=
+  make_name_nice (sm_name m) = sm_name m /\
+  opt_oid_ok (sm_oid m) /\
+  Forall (fun i => import_ok i /\ make_name_nice (si_from i) = si_from i) (sm_imports m) /\
+  defs_wf (sm_defs m) (flat_map print_val (sm_vals m) ++ [T (KW "END")]) /\
+  Forall val_wf (sm_vals m).
